@@ -13,6 +13,7 @@ from pyshacl.errors import ConstraintLoadError, ReportableRuntimeError
 from pyshacl.helper.path_helper import shacl_path_to_sparql_path
 from pyshacl.pytypes import GraphLike, SHACLExecutor
 from pyshacl.rdfutil import stringify_node
+from pyshacl.rdfutil.compare import compare_literal
 from pyshacl.shape import Shape
 
 SH_equals = SH.equals
@@ -348,34 +349,17 @@ class LessThanConstraintComponent(ConstraintComponent):
         non_conformant = False
         reports = []
         for value_node in iter(value_node_set):
-            if isinstance(value_node, rdflib.BNode):
-                raise ReportableRuntimeError("Cannot use sh:lessThan to compare a BlankNode.")
-            value_is_string = False
-            orig_value_node = value_node
-            if isinstance(value_node, rdflib.URIRef):
-                value_node = str(value_node)
-                value_is_string = True
-            elif isinstance(value_node, rdflib.Literal) and isinstance(value_node.value, str):
-                value_node = value_node.value
-                value_is_string = True
-
             for compare_value in compare_values:
-                if isinstance(compare_value, rdflib.BNode):
-                    raise ReportableRuntimeError("Cannot use sh:lessThan to compare a BlankNode.")
-                compare_is_string = False
-                if isinstance(compare_value, rdflib.URIRef):
-                    compare_value = str(compare_value)
-                    compare_is_string = True
-                elif isinstance(compare_value, rdflib.Literal) and isinstance(compare_value.value, str):
-                    compare_value = compare_value.value
-                    compare_is_string = True
-                if (value_is_string and not compare_is_string) or (compare_is_string and not value_is_string):
-                    non_conformant = True
-                elif not value_node < compare_value:
-                    non_conformant = True
-                else:
-                    continue
-                rept = self.make_v_result(datagraph, f, value_node=orig_value_node)
+                try:
+                    if not isinstance(value_node, rdflib.Literal) or not isinstance(compare_value, rdflib.Literal):
+                        # Only literals can be ordered by SPARQL's < operator
+                        raise TypeError("Cannot compare non-literal nodes.")
+                    if compare_literal(value_node, compare_value) < 0:
+                        continue
+                except (TypeError, NotImplementedError):
+                    pass
+                non_conformant = True
+                rept = self.make_v_result(datagraph, f, value_node=value_node)
                 reports.append(rept)
         return non_conformant, reports
 
@@ -499,34 +483,17 @@ class LessThanOrEqualsConstraintComponent(ConstraintComponent):
         non_conformant = False
         reports = []
         for value_node in iter(value_node_set):
-            if isinstance(value_node, rdflib.BNode):
-                raise ReportableRuntimeError("Cannot use sh:lessThanOrEquals to compare a BlankNode.")
-            value_is_string = False
-            orig_value_node = value_node
-            if isinstance(value_node, rdflib.URIRef):
-                value_node = str(value_node)
-                value_is_string = True
-            elif isinstance(value_node, rdflib.Literal) and isinstance(value_node.value, str):
-                value_node = value_node.value
-                value_is_string = True
-
             for compare_value in compare_values:
-                if isinstance(compare_value, rdflib.BNode):
-                    raise ReportableRuntimeError("Cannot use sh:lessThanOrEquals to compare a BlankNode.")
-                compare_is_string = False
-                if isinstance(compare_value, rdflib.URIRef):
-                    compare_value = str(compare_value)
-                    compare_is_string = True
-                elif isinstance(compare_value, rdflib.Literal) and isinstance(compare_value.value, str):
-                    compare_value = compare_value.value
-                    compare_is_string = True
-                if (value_is_string and not compare_is_string) or (compare_is_string and not value_is_string):
-                    non_conformant = True
-                elif not value_node <= compare_value:
-                    non_conformant = True
-                else:
-                    continue
-                rept = self.make_v_result(datagraph, f, value_node=orig_value_node)
+                try:
+                    if not isinstance(value_node, rdflib.Literal) or not isinstance(compare_value, rdflib.Literal):
+                        # Only literals can be ordered by SPARQL's <= operator
+                        raise TypeError("Cannot compare non-literal nodes.")
+                    if compare_literal(value_node, compare_value) <= 0:
+                        continue
+                except (TypeError, NotImplementedError):
+                    pass
+                non_conformant = True
+                rept = self.make_v_result(datagraph, f, value_node=value_node)
                 reports.append(rept)
         return non_conformant, reports
 
